@@ -277,6 +277,7 @@ Proof.
     destruct (c_out c) as [v|] eqn:Eo; destruct (c_op c) as [o|] eqn:Eop; try discriminate.
     + eapply IH; eauto.
     + destruct (gather g (preds (c_edges g) n)) as [pv|] eqn:Eg; simpl in H; [|discriminate].
+      destruct (call_ok o pv); simpl in H; [|discriminate].
       eapply IH; [| | |exact H].
       * simpl. exact He.
       * intros m Hm. unfold has_out in Hm. destruct (string_dec n m) as [->|Hne].
